@@ -109,6 +109,9 @@ pub struct CachedInsertPlan {
     pub table_name: String,
     pub column_count: usize,
     pub column_types: Vec<crate::records::types::DataType>,
+    /// Definition of the target table, for the AUTO_INCREMENT, DEFAULT and NOT NULL
+    /// handling every inserted row goes through.
+    pub table_def: crate::schema::TableDef,
     pub record_schema: crate::records::Schema,
     pub root_page: std::cell::Cell<u32>,
     pub rightmost_hint: std::cell::Cell<Option<u32>>,
